@@ -372,28 +372,34 @@ where
     type Item = EphemeralMessage<M>;
 
     fn poll_next(mut self: Pin<&mut Self>, cx: &mut Context<'_>) -> Poll<Option<Self::Item>> {
-        match ready!(self.inner.poll_next_unpin(cx)) {
-            // Check encoding & supported version and signature during deserialisation.
-            Some(Ok(bytes)) => match WrappedMessage::from_bytes(&bytes) {
-                Ok(wrapped) => Poll::Ready(Some(EphemeralMessage {
-                    topic: self.topic,
-                    inner: wrapped,
-                })),
-                Err(err) => {
-                    // Don't bother users with invalid wrapped messages as this type is not public.
-                    // Instead we log a warning, in case this reveals a buggy implementation, etc.
-                    warn!("invalid ephemeral message received: {err}");
-                    Poll::Pending
-                }
-            },
-            // Ignore internal broadcast channel error, this only indicates that the channel
-            // dropped a message which we can't do much about on this layer anymore. In the future
-            // we want to remove this error type altogether.
-            //
-            // Related issue: https://github.com/p2panda/p2panda/issues/959
-            Some(Err(_)) => Poll::Pending,
-            // Internal stream seized.
-            None => Poll::Ready(None),
+        // Keep polling the inner stream after skipping an item: it returned "ready", so no waker
+        // is registered and returning "pending" here would stall until an unrelated wake-up.
+        loop {
+            match ready!(self.inner.poll_next_unpin(cx)) {
+                // Check encoding & supported version and signature during deserialisation.
+                Some(Ok(bytes)) => match WrappedMessage::from_bytes(&bytes) {
+                    Ok(wrapped) => {
+                        return Poll::Ready(Some(EphemeralMessage {
+                            topic: self.topic,
+                            inner: wrapped,
+                        }));
+                    }
+                    Err(err) => {
+                        // Don't bother users with invalid wrapped messages as this type is not
+                        // public. Instead we log a warning, in case this reveals a buggy
+                        // implementation, etc.
+                        warn!("invalid ephemeral message received: {err}");
+                    }
+                },
+                // Ignore internal broadcast channel error, this only indicates that the channel
+                // dropped a message which we can't do much about on this layer anymore. In the
+                // future we want to remove this error type altogether.
+                //
+                // Related issue: https://github.com/p2panda/p2panda/issues/959
+                Some(Err(_)) => {}
+                // Internal stream seized.
+                None => return Poll::Ready(None),
+            }
         }
     }
 }
